@@ -268,6 +268,9 @@ pub enum SEv {
     /// `t<k>`: consume the whole stream inside a tokio current-thread runtime, holding at most `k`
     /// FnRefs (must be the only event of the run)
     Tokio(usize),
+    /// `r<k>`: `k` rounds of a real two-thread race: a worker thread drops the FnRefs while the
+    /// consumer polls only when woken (must be the only event of the run)
+    Race(usize),
 }
 
 pub fn fmt_sev(e: &SEv) -> String {
@@ -277,6 +280,7 @@ pub fn fmt_sev(e: &SEv) -> String {
         SEv::Interrupt => "i".to_string(),
         SEv::DropStream => "x".to_string(),
         SEv::Tokio(k) => format!("t{k}"),
+        SEv::Race(k) => format!("r{k}"),
     }
 }
 
@@ -288,6 +292,9 @@ pub fn parse_sev(tok: &str) -> Result<SEv, String> {
         _ => {
             if let Some(k) = tok.strip_prefix('t').and_then(|n| n.parse::<usize>().ok()) {
                 return Ok(SEv::Tokio(k));
+            }
+            if let Some(k) = tok.strip_prefix('r').and_then(|n| n.parse::<usize>().ok()) {
+                return Ok(SEv::Race(k));
             }
             tok.strip_prefix('d')
                 .and_then(|n| n.parse::<usize>().ok())
